@@ -49,8 +49,8 @@ RtpLatches(st, pt_, ssrc, pt) ==
 \* Who gets an RTCP packet.  pkt = [kind, ssrc, ssrcs]:
 \*   SR: ssrc = sender SSRC, ssrcs = SSRCs of the report blocks
 \*   RR: ssrcs = SSRCs of the report blocks;  BYE: ssrcs = sources
-\*   RTPFB / PSFB: ssrc = media SSRC;  REMB: ssrcs = SSRC list inside the FCI
-\*   (a REMB's own media SSRC is 0 by convention and is not modelled)
+\*   RTPFB / PSFB: ssrc = media SSRC;  REMB: ssrc = media SSRC (0 by convention, but any value
+\*   may arrive), ssrcs = SSRC list inside the FCI.  SSRC 0 is never registered.
 RtcpTargets(st, sn, pkt) ==
   LET recvOf(S) == {st[s] : s \in S \cap DOMAIN st}
       sendOf(S) == {sn[s] : s \in S \cap DOMAIN sn}
@@ -59,7 +59,7 @@ RtcpTargets(st, sn, pkt) ==
        [] pkt.kind = "BYE"   -> recvOf(pkt.ssrcs)
        [] pkt.kind = "RTPFB" -> sendOf({pkt.ssrc})
        [] pkt.kind = "PSFB"  -> sendOf({pkt.ssrc})
-       [] pkt.kind = "REMB"  -> sendOf(pkt.ssrcs)
+       [] pkt.kind = "REMB"  -> sendOf(pkt.ssrcs \cup {pkt.ssrc})
        [] OTHER              -> {}
 
 ------------------------------------------------------------------------
@@ -113,7 +113,7 @@ RouteRtcp(pkt) ==
   /\ act' = [op |-> "rtcp", kind |-> pkt.kind, ssrc |-> pkt.ssrc, ssrcs |-> pkt.ssrcs,
              res |-> RtcpTargets(ssrcTab, sndTab, pkt)]
 
-RtcpPackets == [kind : RtcpKinds, ssrc : Ssrcs, ssrcs : SUBSET Ssrcs]
+RtcpPackets == [kind : RtcpKinds, ssrc : Ssrcs \cup {0}, ssrcs : SUBSET Ssrcs]
 
 Next ==
   /\ n < MaxOps
